@@ -338,11 +338,12 @@ _SIMPLE_ATOMS = list("abcxyz01 -_.") + ["é", "\\n", '\\"', "\\\\", "\\${", "$"]
 
 
 class Gen:
-    def __init__(self, seed: int, budget: int = 12, include_uri: bool = False, empty_let: bool = True):
+    def __init__(self, seed: int, budget: int = 12, include_uri: bool = False, empty_let: bool = True, merge_pairs: bool = True):
         self.r = random.Random(seed)
         self.budget = budget
         self.include_uri = include_uri
         self.empty_let = empty_let
+        self.merge_pairs = merge_pairs
 
     # -- names
     def ident(self) -> str:
@@ -449,7 +450,18 @@ class Gen:
                     ("name", self.plain_name()) if r.random() < 0.8 else ("qname", self.simple_string_parts()) for _ in range(r.randint(1, 3))
                 )
                 items.append(("inherit", src, names))
-        return _dedupe_bindings(items)
+        items = _dedupe_bindings(items)
+        if r.random() < 0.05 and self.merge_pairs and not any(it[0] == "bind" and _seg_key(it[1][0]) == "mrg" for it in items):
+            # the same dotted name defined twice with set literals (valid Nix: the sets are merged), one of them
+            # holding an inherit clause
+            head = (("name", "mrg"), ("name", r.choice(["a", "cfg"])))
+            first = ("set", False, (("inherit", None if r.random() < 0.5 else ("id", "src0"), (("name", "inh0"),)), ("bind", (("name", "p0"),), self.leaf())))
+            second = ("set", False, (("bind", (("name", "q0"),), self.leaf()),) + ((("inherit", ("id", "src1"), (("name", "inh1"),)),) if r.random() < 0.4 else ()))
+            pair = [("bind", head, first), ("bind", head, second)]
+            if r.random() < 0.5:
+                pair.reverse()
+            items = items + tuple(pair)
+        return items
 
     def lambda_head(self):
         r = self.r
@@ -607,12 +619,12 @@ def _dedupe_bindings(items):
 SIZES = [3, 6, 12, 25, 40]
 
 
-def program(seed: int, include_uri: bool = False, empty_let: bool = True):
+def program(seed: int, include_uri: bool = False, empty_let: bool = True, merge_pairs: bool = True):
     """Deterministic program for a seed: returns (ast, text, broken)."""
     r = random.Random(seed ^ 0x5BD1E995)
     budget = r.choice(SIZES)
     broken = r.random() < 0.5
-    g = Gen(seed, budget, include_uri, empty_let)
+    g = Gen(seed, budget, include_uri, empty_let, merge_pairs)
     ast = g.expr()
     text = render(ast, broken)
     if not broken and any(len(ln) > 200 for ln in text.split("\n")):
